@@ -165,8 +165,9 @@ func (t *tcpTransport) Receive(ctx context.Context) (envelope, error) {
 }
 
 func (t *tcpTransport) Close() error {
-	if err := t.ensureOpen(); err != nil {
-		return err
+	// A connection closed by the remote party (EOF) still needs to be released
+	if t.conn == nil {
+		return errors.New("transport is not open")
 	}
 
 	err := t.ctxConn.Close()
